@@ -369,6 +369,9 @@ impl DataModule {
         ));
         s.push_str(item_size_fn(self.item_variant));
         s.push('\n');
+        // two mutually recursive functions with several dependencies outside the cycle (the code
+        // generator merges them into one cyclic function and hoists the dependencies around it)
+        s.push_str("pub fn ping(n: Int, xs: List<Int>) -> Int {\n  if n <= 0 {\n    total(xs) + lookup(table, \"k\")\n  } else {\n    pong(n - 1, xs) + len(xs)\n  }\n}\n\npub fn pong(n: Int, xs: List<Int>) -> Int {\n  if n <= 0 {\n    len(xs) + flatten_total(nested)\n  } else {\n    ping(n - 1, xs) + total(xs)\n  }\n}\n\n");
         s.push_str("pub fn flatten_total(xss: List<List<Int>>) -> Int {\n  when xss is {\n    [] -> 0\n    [xs, ..rest] -> total(xs) + flatten_total(rest)\n  }\n}\n\n");
         s.push_str("pub fn weigh(its: List<Item>) -> Int {\n  when its is {\n    [] -> 0\n    [i, ..rest] -> size(i) + weigh(rest)\n  }\n}\n\n");
         s.push_str("pub fn check_rec(r: Rec, bound: Int) -> Bool {\n  r.limit <= bound || builtin.length_of_bytearray(r.owner) > 64\n}\n");
@@ -518,7 +521,7 @@ fn validator_module(rng: &mut Rng, idx: usize, data: &[DataModule]) -> String {
         s.push_str(&format!("validator {vname}{plist} {{\n"));
         let handlers = 1 + rng.usize_below(3);
         s.push_str(&format!(
-            "  spend(datum: Option<{an}.Rec>, redeemer: Int, _own_ref: Data, _self: Data) {{\n    /// the datum must be present\n    expect Some(d) = datum\n    {an}.check_rec(d, redeemer + {psum}) && {bn}.len({bn}.table) >= {k} && {an}.must_when(redeemer > 5, datum) >= 0\n  }}\n\n",
+            "  spend(datum: Option<{an}.Rec>, redeemer: Int, _own_ref: Data, _self: Data) {{\n    /// the datum must be present\n    expect Some(d) = datum\n    {an}.check_rec(d, redeemer + {psum}) && {bn}.len({bn}.table) >= {k} && {an}.must_when(redeemer > 5, datum) >= 0 && {bn}.ping(redeemer, [1, 2, 3]) >= 0 - 1000000\n  }}\n\n",
             an = a.name,
             bn = b.name,
             k = rng.range(0, 4)
